@@ -15,6 +15,8 @@ FIRST_MISSED = {
     "C11-w4-1", "C11-w4-2", "C15-w4-2", "C20-w4-1",
     "C06-w5-1", "C06-w5-2", "C09-w5-1", "C09-w5-2", "C10-w5-1", "C10-w5-2", "C11-w5-1", "C15-w5-1", "C20-w5-2",
     "C04-w6-2", "C05-w6-2", "C08-w6-2", "C09-w6-2", "C10-w6-1", "C10-w6-2", "C15-w6-1", "C15-w6-2", "C20-w6-1", "C20-w6-2",
+    "C04-w7-1", "C05-w7-1", "C06-w7-1", "C06-w7-2", "C09-w7-1", "C11-w7-1", "C15-w7-2", "C20-w7-2",
+    "C04-w8-2", "C05-w8-1", "C06-w8-2", "C09-w8-1", "C09-w8-2", "C10-w8-1", "C10-w8-2", "C11-w8-2", "C15-w8-1", "C15-w8-2", "C20-w8-1",
 }
 
 WHAT = {
@@ -138,6 +140,34 @@ WHAT = {
     "C15-w6-2": "handlers for context-cancelled run under context.WithoutCancel: a sleep inside sees neither deadline nor cancellation",
     "C20-w6-1": "resolved paths made absolute with filepath.Abs ($PWD spelling) instead of the resolved working directory",
     "C20-w6-2": "FSLibrary reports the requested string instead of the in-FS path as true location: nested loads resolve against the wrong directory",
+    "C04-w7-1": "Eval / FunCall end their entry-point bookkeeping with a plain call instead of a defer: a host panic in a builtin reached through funcall/apply/map unwinds past it and the budget is never refilled again",
+    "C05-w7-1": "stable-sort goes on calling a comparator that has already failed",
+    "C06-w7-1": "handler-bind looks up every handler named by a bare symbol when the form is entered and fails at once if one is unbound",
+    "C06-w7-2": "handler-bind pops the handled condition with a plain call: a host panic between push and pop leaves it pending",
+    "C08-w7-1": "use-package hands out the defining package's current function instead of the named package's own binding (three packages, a re-export and a redefinition)",
+    "C09-w7-1": "macro expansions at sealed call sites memoised per runtime: a list built by the expansion is the same object at every evaluation",
+    "C11-w7-1": "to-bytes of a bytes value returns a new header over the argument's buffer, capacity not clamped",
+    "C15-w7-2": "nested loads evaluate under the root environment's context: a sleep in a source loaded from a function body sees neither deadline nor cancellation",
+    "C20-w7-1": "resolved relative location joined onto the root for the check and onto the working directory for the read",
+    "C20-w7-2": "the free-text name of a source string (load-string :name, LoadString's name) is taken for a loading file: relative loads resolve against the label's directory",
+    "C04-w8-1": "tail-call turn refactored into a helper returning a Go error: a budget or cancellation landing on exactly that step comes out re-wrapped under the condition name error",
+    "C04-w8-2": "physical height check skipped when a logical limit at or below it is configured (the logical check fires two frames later)",
+    "C05-w8-1": "handler-bind calls the handler through FunCall and pops the condition in straight-line code: a host builtin used as the handler that panics leaves the condition pending",
+    "C05-w8-2": "quasiquote templates count against the evaluator nesting and an error inside an unquote returns without giving the level back",
+    "C06-w8-1": "handler-bind evaluates every binding's handler expression up front, before the body",
+    "C06-w8-2": "a host panic whose panic value is itself a lisp error (or the Go error of one) comes back as that ordinary error, not as internal-panic",
+    "C08-w8-1": "unqualified names missing from the current package fall back to the language package's live export list",
+    "C08-w8-2": "load restores the loader's package by plain assignment and returns early on an error",
+    "C09-w8-1": "insert-sorted appends in place when the item sorts last: a literal's spare slot is written and an unsealed header over the program's storage returned",
+    "C09-w8-2": "json:use-exact-integers also records its value process-wide and runtimes constructed later start from it",
+    "C10-w8-1": "context-cancelled messages report how long the evaluation had been running (real clock)",
+    "C10-w8-2": "apply with a bare list passes the list's own cells: a &rest callee that sorts in place reorders the literal of a parse shared by later fresh runtimes",
+    "C11-w8-1": "reverse returns its argument when it has fewer than two elements and already the requested type",
+    "C11-w8-2": "insert-sorted stores a copy of the inserted item instead of the caller's value",
+    "C15-w8-1": "the default one-hour cap is dropped when the sleep builtin is called through a host binding that declares no :max formal",
+    "C15-w8-2": "the default cap becomes a Runtime field that only the standard constructor fills in: runtimes assembled as composite literals have none",
+    "C20-w8-1": "the target is read before the containment check (refused all the same, but the outside file has been opened and read)",
+    "C20-w8-2": "fs.FS library does not prefix the loading file's directory when the location already starts with it",
 }
 
 
